@@ -443,7 +443,7 @@ func (i *BigInt) DivideBigInt(other *BigInt) (Value, Value) {
 	if other.IsZero() {
 		return Undefined, Ref(NewZeroDivisionError())
 	}
-	result := ToElkBigInt((&big.Int{}).Div(i.ToGoBigInt(), other.ToGoBigInt()))
+	result := ToElkBigInt((&big.Int{}).Quo(i.ToGoBigInt(), other.ToGoBigInt()))
 	if result.IsSmallInt() {
 		return result.ToSmallInt().ToValue(), Undefined
 	}
@@ -461,7 +461,7 @@ func (i *BigInt) DivideSmallInt(other SmallInt) (Value, Value) {
 		return Undefined, Ref(NewZeroDivisionError())
 	}
 	oBigInt := big.NewInt(int64(other))
-	oBigInt.Div(i.ToGoBigInt(), oBigInt)
+	oBigInt.Quo(i.ToGoBigInt(), oBigInt)
 	result := ToElkBigInt(oBigInt)
 	if result.IsSmallInt() {
 		return result.ToSmallInt().ToValue(), Undefined
@@ -964,8 +964,7 @@ func rightBitshiftBigInt[T SimpleInt](i *BigInt, other T) Value {
 	if other < 0 {
 		return SmallInt(0).ToValue()
 	}
-	iGo := i.ToGoBigInt()
-	result := ToElkBigInt(iGo.Rsh(iGo, uint(other)))
+	result := ToElkBigInt((&big.Int{}).Rsh(i.ToGoBigInt(), uint(other)))
 	if result.IsSmallInt() {
 		return result.ToSmallInt().ToValue()
 	}
@@ -1091,13 +1090,11 @@ func leftBitshiftBigInt[T SimpleInt](i *BigInt, other T) Value {
 	if other < 0 {
 		return SmallInt(0).ToValue()
 	}
-	iGo := i.ToGoBigInt()
-	return Ref(ToElkBigInt(iGo.Lsh(iGo, uint(other))))
+	return Ref(ToElkBigInt((&big.Int{}).Lsh(i.ToGoBigInt(), uint(other))))
 }
 
 func leftBitshiftBigIntUnsigned[T SimpleInt](i *BigInt, other T) *BigInt {
-	iGo := i.ToGoBigInt()
-	return ToElkBigInt(iGo.Lsh(iGo, uint(other)))
+	return ToElkBigInt((&big.Int{}).Lsh(i.ToGoBigInt(), uint(other)))
 }
 
 // Bitshift to the left by another integer value and return an error
@@ -1288,7 +1285,7 @@ func (i *BigInt) BitwiseAndNotInt(other Value) Value {
 
 func (i *BigInt) BitwiseAndNotSmallInt(other SmallInt) Value {
 	oBigInt := big.NewInt(int64(other))
-	oBigInt.And(i.ToGoBigInt(), oBigInt)
+	oBigInt.AndNot(i.ToGoBigInt(), oBigInt)
 	result := ToElkBigInt(oBigInt)
 	if result.IsSmallInt() {
 		return result.ToSmallInt().ToValue()
@@ -1297,7 +1294,7 @@ func (i *BigInt) BitwiseAndNotSmallInt(other SmallInt) Value {
 }
 
 func (i *BigInt) BitwiseAndNotBigInt(other *BigInt) Value {
-	result := ToElkBigInt((&big.Int{}).And(i.ToGoBigInt(), other.ToGoBigInt()))
+	result := ToElkBigInt((&big.Int{}).AndNot(i.ToGoBigInt(), other.ToGoBigInt()))
 	if result.IsSmallInt() {
 		return result.ToSmallInt().ToValue()
 	}
